@@ -24,86 +24,48 @@ theorem C11_chunk_roundtrip (ds : List Bytes) (hne : ∀ d ∈ ds, d ≠ []) :
 
 example : dechunk 100 (frameData [[1, 2], [3]] ++ lastChunk) = some [1, 2, 3] := by decide
 
-/-- a chunk whose `len()` agrees with its byte length (everything except buffers with wide items) -/
-def c11WellSized : Chunk → Prop
-  | .buf _ k => k = 1
-  | _ => True
-
-/-
-Full statement: `deframe (frame b) = payload b` for every body.  It does NOT hold for buffers whose
-items are wider than a byte when chunked (`C11_wide_buffer_witness`): the size line counts items.
-Proved: for well-sized pieces, what the body loop writes in chunked mode is the chunk framing of the
-non-empty encoded pieces — which `C11_chunk_roundtrip` decodes to the payload — and in
-Content-Length mode it is the payload itself.
--/
-theorem C11_payload_roundtrip_partial (cs : List Chunk) (hw : ∀ c ∈ cs, c11WellSized c) (chunked : Bool)
+/-- component of the round trip: for well-sized pieces (everything except buffers with items wider
+than a byte), what the body loop writes in chunked mode is the chunk framing of the non-empty encoded
+pieces — which `C11_chunk_roundtrip` decodes to the payload — and in Content-Length mode it is the
+payload itself -/
+theorem C11_body_loop_frames_payload (cs : List Chunk) (hw : ∀ c ∈ cs, wellSized c) (chunked : Bool)
     (hok : (sendChunks chunked cs).err = none) :
     ∃ ds : List Bytes, (∀ d ∈ ds, d ≠ []) ∧ chunksPayload cs = some ds.flatten ∧
       (sendChunks chunked cs).written = if chunked then frameData ds else ds.flatten := by
-  induction cs with
-  | nil => exact ⟨[], by simp, by simp [chunksPayload], by cases chunked <;> simp [sendChunks, frameData]⟩
-  | cons c t ih =>
-    have hwt : ∀ c ∈ t, c11WellSized c := fun x hx => hw x (by simp [hx])
-    have hwc := hw c (by simp)
-    simp only [sendChunks] at hok ⊢
-    split at hok
-    · -- empty piece: skipped
-      rename_i hlen
-      obtain ⟨ds, h1, h2, h3⟩ := ih hwt hok
-      refine ⟨ds, h1, ?_, by simpa [hlen] using h3⟩
-      have hb : chunkBytes c = some [] := by
-        cases c with
-        | bytes b => simp [Chunk.len] at hlen; simp [chunkBytes, hlen]
-        | str s => simp [Chunk.len] at hlen; simp [chunkBytes, hlen, utf8SP]
-        | buf b k =>
-          simp only [c11WellSized] at hwc; subst hwc
-          simp [Chunk.len] at hlen; simp [chunkBytes, hlen]
-      simp [chunksPayload, hb, h2]
-    · rename_i hlen
-      split at hok
-      · simp at hok
-      · rename_i d hd
-        simp only at hok
-        obtain ⟨ds, h1, h2, h3⟩ := ih hwt hok
-        have hcb : chunkBytes c = some d ∧ c.sizeLine d = d.length ∧ d ≠ [] := by
-          cases c with
-          | bytes b =>
-            simp [Chunk.data] at hd; subst hd
-            simp [Chunk.len] at hlen
-            exact ⟨rfl, rfl, hlen⟩
-          | str s =>
-            simp only [Chunk.data, encodeUtf8] at hd
-            split at hd
-            · simp at hd
-            · rename_i hs
-              simp at hd; subst hd
-              simp [Chunk.len] at hlen
-              refine ⟨by simp [chunkBytes, hs], rfl, ?_⟩
-              cases s with
-              | nil => exact absurd rfl hlen
-              | cons x u =>
-                simp only [utf8SP, List.flatMap_cons]
-                intro e
-                have : utf8Char x = [] := (List.append_eq_nil_iff.mp e).1
-                unfold utf8Char at this
-                repeat' split at this
-                all_goals simp at this
-          | buf b k =>
-            simp only [c11WellSized] at hwc; subst hwc
-            simp [Chunk.data] at hd; subst hd
-            simp [Chunk.len] at hlen
-            exact ⟨rfl, by simp [Chunk.sizeLine, Chunk.len], hlen⟩
-        obtain ⟨hc1, hc2, hc3⟩ := hcb
-        refine ⟨d :: ds, ?_, ?_, ?_⟩
-        · intro x hx; simp at hx; rcases hx with rfl | hx
-          · exact hc3
-          · exact h1 x hx
-        · simp [chunksPayload, hc1, h2]
-        · simp only [hlen, if_false, hd, h3, hc2]
-          cases chunked <;> simp [frameData]
+  exact sendChunks_spec cs hw chunked hok
 
 example : (sendChunks true [.bytes [1, 2], .str [], .str [233]]).written
     = frameData [[1, 2], [0xC3, 0xA9]] := by decide
+
+/-- The full round trip: whenever the caller supplies no framing header and the request is accepted,
+the permissive head parser followed by the strict de-framer (exactly one of Content-Length / chunked, or
+neither with an empty body part) recovers exactly the body's bytes (str as UTF-8; files from their
+start offset, read in `blocksize` blocks; iterables with empty pieces).  Hypotheses: a non-empty
+method (see C10), a positive blocksize, and no buffer with items wider than a byte
+(`C11_wide_buffer_witness`). -/
+theorem C11_payload_roundtrip (cfg : Cfg) (meth url : Str) (headers : List (Str × Str)) (body : Body) (ch : Bool)
+    (w : Bytes) (hm : meth ≠ [])
+    (h1 : (headerKeys headers).contains (lit "content-length") = false)
+    (h2 : (headerKeys headers).contains (lit "transfer-encoding") = false)
+    (hbs : 0 < cfg.blocksize) (hw : WellSizedBody body)
+    (h : serialize cfg meth url headers body ch = .ok w) :
+    ∃ r kind pay, strictParse w = some r ∧ deframe r = some (kind, pay) ∧ payload body = some pay := by
+  unfold serialize request at h
+  cases hp : prepare cfg meth url headers body ch with
+  | error e => simp [hp] at h
+  | ok p =>
+    simp only [hp] at h
+    split at h
+    · simp at h
+    · rename_i hok
+      simp only [Except.ok.injEq] at h
+      subst h
+      obtain ⟨hrl, hl⟩ := prepare_legal hp
+      obtain ⟨kind, pay, hd, hpay⟩ := deframe_prepared hp h1 h2 hbs hw hok meth (urlOrSlash url)
+      exact ⟨_, kind, pay, strictParse_prepared p meth url hrl hl hm _, hd, hpay⟩
+
+example : (serialize c11cfg (lit "PUT") (lit "/") [] (.file ⟨[1, 2, 3, 4, 5, 6], 1, .ok, .ok, false⟩) false).toOption.bind
+    (fun w => (strictParse w).bind deframe) = some (.chunked, [2, 3, 4, 5, 6]) := by decide +kernel
 
 /-- negation witness for the full round trip: `array('H', [1, 2, 3])` with `chunked=True` — the
 strict decoder rejects what was written -/
@@ -121,70 +83,7 @@ theorem C11_exactly_one_framing (keys : List Str) (ch : Bool) (chunks : Option (
     (fr.chunked = true ∧ fr.lines = [(lit "Transfer-Encoding", lit "chunked")] ∧ (ch = true ∨ (cl = none ∧ chunks.isSome)))
     ∨ (fr.chunked = false ∧ fr.lines = [] ∧ ch = false ∧ cl = none ∧ chunks = none)
     ∨ (∃ n, fr.chunked = false ∧ fr.lines = [(lit "Content-Length", toDec n)] ∧ ch = false ∧ cl = some n) := by
-  have hte : putheader (lit "Transfer-Encoding") (lit "chunked") = .ok [(lit "Transfer-Encoding", lit "chunked")] := by
-    decide
-  have hcl : ∀ n, putheader (lit "Content-Length") (toDec n) = .ok [(lit "Content-Length", toDec n)] ∨
-      ∃ e, putheader (lit "Content-Length") (toDec n) = .error e := by
-    intro n
-    cases hp : putheader (lit "Content-Length") (toDec n) with
-    | error e => exact Or.inr ⟨e, rfl⟩
-    | ok l =>
-      left
-      unfold putheader at hp
-      split at hp
-      · obtain ⟨a, ha, e⟩ := map_ok hp
-        subst e
-        unfold hcPutheader at ha
-        split at ha
-        · simp at ha
-        · rename_i nn hnn
-          have : nn = lit "Content-Length" := by
-            have : encodeAscii (lit "Content-Length") = .ok (lit "Content-Length") := by decide
-            rw [this] at hnn; simp at hnn; exact hnn.symm
-          subst this
-          split at ha
-          · simp at ha
-          · split at ha
-            · simp at ha
-            · rename_i v hv
-              simp only [encodeLatin1] at hv
-              split at hv
-              · simp at hv; subst hv
-                split at ha
-                · simp at ha
-                · simp at ha; subst ha; rfl
-              · simp at hv
-      · split at hp <;> simp at hp
-        rename_i h1 h2
-        have hc : Gen.skippableHeaders.contains (lower (lit "Content-Length")) = false := by decide
-        rw [hc] at h2
-        simp at h2
-  unfold framing at h
-  split at h
-  · rename_i hch
-    simp only [hk2, Bool.not_false, if_true, hte, Except.map] at h
-    simp at h; subst h
-    exact Or.inl ⟨rfl, rfl, Or.inl hch⟩
-  · rename_i hch
-    simp only [hk1, hk2] at h
-    simp at h
-    split at h
-    · rename_i hcl0
-      split at h
-      · rename_i hsome
-        simp only [hte, Except.map] at h
-        simp at h; subst h
-        exact Or.inl ⟨rfl, rfl, Or.inr ⟨rfl, hsome⟩⟩
-      · rename_i hsome
-        simp at h; subst h
-        refine Or.inr (Or.inl ⟨rfl, rfl, by simpa using hch, rfl, ?_⟩)
-        cases chunks <;> simp_all
-    · rename_i n
-      rcases hcl n with hp | ⟨e, hp⟩
-      · simp only [hp, Except.map] at h
-        simp at h; subst h
-        exact Or.inr (Or.inr ⟨n, rfl, rfl, by simpa using hch, rfl⟩)
-      · simp [hp, Except.map] at h
+  exact framing_cases keys ch chunks cl fr h hk1 hk2
 
 /-- body-less requests: unframed for the methods of `_METHODS_NOT_EXPECTING_BODY` (which contain
 GET / HEAD / DELETE / OPTIONS and none of POST / PUT / PATCH), `Content-Length: 0` otherwise;
